@@ -102,17 +102,19 @@ Strip(t) == LET keep == {i \in 1..Len(t) : t[i] \notin Ws} IN
 
 \* Value of a chunk-size token (the part of the size line before the first ';').
 \* strict grammar: 1*HEXDIG.  Sloppy spellings that have exactly one sensible reading are marked `lenient`
-\* (surrounding white space, "-0"): a reader may reject them or read them that way.
+\* (surrounding white space, a "0x" prefix, "-0"): a reader may reject them or read them that way.
 \* A size with a minus sign and a non-zero value has no reading at all.
 SizeOf(tok) ==
   LET core == Strip(tok)
       neg == Len(core) > 0 /\ core[1] = MINUS
-      digs == IF neg THEN Tail(core) ELSE core
+      mag == IF neg THEN Tail(core) ELSE core
+      pre == Len(mag) > 2 /\ mag[1] = ZERO /\ mag[2] \in {120, 88}
+      digs == IF pre THEN SubSeq(mag, 3, Len(mag)) ELSE mag
       allhex == Len(digs) > 0 /\ Len(digs) <= 6 /\ \A i \in 1..Len(digs) : IsHex(digs[i])
       v == IF allhex THEN HexValue(digs) ELSE 0
   IN IF ~allhex THEN [ok |-> FALSE, why |-> "bad_size", val |-> 0, lenient |-> FALSE]
      ELSE IF neg /\ v > 0 THEN [ok |-> FALSE, why |-> "negative_size", val |-> 0, lenient |-> FALSE]
-     ELSE [ok |-> TRUE, why |-> "", val |-> v, lenient |-> (neg \/ core # tok)]
+     ELSE [ok |-> TRUE, why |-> "", val |-> v, lenient |-> (neg \/ pre \/ core # tok)]
 
 SizeLineTok(line) == LET semi == FirstIdx(line, SEMI) IN IF semi = 0 THEN line ELSE SubSeq(line, 1, semi - 1)
 
